@@ -617,6 +617,11 @@ def method(eng, st, base, name, A, n, callee=None):
     if isinstance(base, ElemRef):
         # method on a vector element (e.g. children[i]->..., node.node_data.is_none())
         base = eng.load(st, base)
+    hook0 = getattr(eng.cur_contract, 'method_hook', None)
+    if hook0 is not None:
+        r0 = hook0(eng, st, base, name, A, n)
+        if r0 is not None:
+            return r0
     # ---- python objects
     if isinstance(base, PyObj) or (z3.is_expr(base) and base.sort() == Ref):
         o = base if isinstance(base, PyObj) else PyObj(base)
